@@ -167,7 +167,11 @@ class DemandSource(object):
 			return False
 		else:
 			for attr in self._DEFAULT_VALUES.keys():
-				if getattr(self, attr) != getattr(other, attr):
+				# Compare the public properties rather than the raw attributes: to_dict() stores the mean and
+				# standard deviation that a property derives from the other parameters, so an object rebuilt
+				# by from_dict() has them set explicitly while the original has them derived.
+				prop = attr[1:] if attr[0] == '_' else attr
+				if getattr(self, prop) != getattr(other, prop):
 					return False
 			return True
 
